@@ -59,6 +59,17 @@ def handleInterp : Handler := fun inp out => do
     else if !(m.txMeta == i.txMeta) then "txmeta"
     else if !(m.accountMeta == i.accountMeta) then "accountmeta"
     else ""
+  -- root cause, when the divergence falls in one of the three known classes of the
+  -- interpreter library (see checks/C26.json), else the first construct present
+  let mErrText := match (out.getObjVal? "machine").toOption with
+    | some mj => optStrField mj "errText"
+    | none => ""
+  let has (f : String) : Bool := feats.contains f
+  let cause : String :=
+    if (mErrText.splitOn "sum of portions exceeded").length > 1 then "portions-over-100"
+    else if has "save" && has "overdraft-bounded" then "save-overdraft"
+    else if has "kept" then "kept"
+    else primary
   let prop := aspect = ""
   let outcome :=
     if outOfSubset then "out-of-subset"
@@ -67,7 +78,7 @@ def handleInterp : Handler := fun inp out => do
          nontrivial := m.ok && i.ok && !(nz m.postings).isEmpty,
          tags := [outcome] ++ feats.map (fun f => "f:" ++ f) ++
                  (if m.ok && (m.postings.any fun p => p.2.2.2 = "0") then ["machine-zero-postings"] else []),
-         note := if prop then "" else s!"runtimes diverge ({aspect}) on a program using {primary}",
-         sig := if prop then "" else s!"C26:{aspect}:{primary}" }
+         note := if prop then "" else s!"runtimes diverge ({aspect}) on a program using {primary} (class {cause})",
+         sig := if prop then "" else s!"C26:{cause}:{aspect}" }
 
 end Ledger.Driver.Api
